@@ -23,14 +23,14 @@ def est_size(kls, vls, pfx):
     return pfx + sum(3 + k + v for k, v in zip(kls, vls)) + n * (9 + 8) + n * (6 + max(kls + [1])) + 16
 
 
-def wq(name, kls, lcps, vls, ri=1, bs=40, pfx=0, compw=0, levelw=None, perm=None, frag=0, entry="h_write",
+def wq(name, kls, lcps, vls, ri=1, bs=40, pfx=0, compw=0, levelw=None, perm=None, frag=0, pool=0, deliver=3, entry="h_write",
        extra=None, special=None, base=0x40, timeout=900, mem_gb=10, witness=True, us=None, sample=None):
     n = len(kls)
     assert est_size(kls, vls, pfx) < 250, "shape too large for the ghost file"
     klmax = max([4] + list(kls))
     vlmax = max([4] + list(vls))
     d = {"N": n, "KLS": shapes.clist(kls), "VLS": shapes.clist(vls), "KLMAX": klmax, "VLMAX": vlmax,
-         "RI": ri, "BS": bs, "PFX": pfx, "COMPW": compw, "FRAG": frag}
+         "RI": ri, "BS": bs, "PFX": pfx, "COMPW": compw, "FRAG": frag, "WPOOL": pool, "WDELIVER": deliver}
     if lcps is not None and n > 0:
         rep = sorted({i for i in (perm or []) if (perm or []).count(i) > 1})
         d["KT"] = shapes.cbytes2(shapes.key_templates(kls, lcps, base=base, special=special, all_concrete=rep), klmax)
@@ -45,7 +45,7 @@ def wq(name, kls, lcps, vls, ri=1, bs=40, pfx=0, compw=0, levelw=None, perm=None
     if us:
         u.update(us)
     smp = {"key_lens": kls, "common_prefix_lens": lcps, "val_lens": vls, "restart_interval": ri, "block_size": bs,
-           "foreign_prefix": pfx, "compression": compw, "level": levelw, "add_order": perm, "fragmenting_write": bool(frag),
+           "foreign_prefix": pfx, "compression": compw, "level": levelw, "add_order": perm, "fragmenting_write": bool(frag), "pool": bool(pool), "pool_delivery": ["at once", "next pool call", "only at join", "solver-chosen"][deliver] if pool else None,
            "content": "key bytes symbolic except the one byte per adjacent pair that decides their order; all value bytes symbolic; CRC values symbolic"}
     if sample:
         smp.update(sample)
